@@ -751,3 +751,66 @@ pub fn huge_output(ctx: &Ctx) -> Stats {
     }
     st
 }
+
+/// thorough, best effort: k-mer CGR at k = 7 on ~5000 records: one batch renders to > 2 GiB
+pub fn kcgr_huge_output(ctx: &Ctx) -> Stats {
+    let mut st = Stats::new();
+    let mut rng = Rng::keyed(ctx.seed, "c12.huge_output", 0);
+    let k = 7usize;
+    let nrec = 5_100usize;
+    let recs: Vec<Rec> = (0..nrec).map(|i| Rec { id: format!("g{}", i), desc: None, seq: (0..60 + (i % 11)).map(|_| *rng.pick(b"ACGT")).collect() }).collect();
+    let sc = Scratch::new(ctx, "c12huge");
+    let inp = sc.write("in.fa", &ser::to_fasta(&recs, &SerOpts::plain()));
+    let outp = sc.path("out.kcgr");
+    let case = Json::obj().set("layout", Json::s("5100 random ACGT records of 60..70 bases, k=7, S=16, normalised, one batch; records not stored"));
+    note_current_case(ctx, &case);
+    st.case(true, 1);
+    st.sample(case.clone());
+    prepare_output_none(&outp);
+    let r = guarded(|| {
+        let mut c = OligoCgrComputer::new(inp.clone(), outp.clone(), k, 16);
+        c.set_threads(8);
+        c.set_norm(true);
+        c.vectorise()
+    });
+    match r {
+        Err(p) => st.violate(&panic_sig(&p), p, case),
+        Ok(Err(e)) => st.violate("kcgr.error", e, case),
+        Ok(Ok(())) => {
+            use std::io::{BufRead, BufReader};
+            let size = std::fs::metadata(&outp).map(|m| m.len()).unwrap_or(0);
+            st.set_extra("output_bytes", Json::Int(size as i128));
+            let f = std::fs::File::open(&outp).unwrap();
+            let ncols = cols(k).codes.len();
+            let mut n = 0usize;
+            let mut bad: Option<String> = None;
+            for (i, line) in BufReader::with_capacity(1 << 22, f).split(b'\n').enumerate() {
+                let line = match line {
+                    Ok(l) => l,
+                    Err(_) => break,
+                };
+                n += 1;
+                if i >= recs.len() {
+                    continue;
+                }
+                if i % 509 == 0 || i + 2 >= recs.len() {
+                    if let Err((_, msg)) = check_oligocgr_rows(&line, &recs[i..i + 1], k, 16, true) {
+                        bad.get_or_insert(format!("row {}: {}", i, msg));
+                    }
+                } else if line.iter().filter(|&&b| b == b'(').count() != ncols {
+                    bad.get_or_insert(format!("row {} has {} triples, expected {}", i, line.iter().filter(|&&b| b == b'(').count(), ncols));
+                }
+            }
+            if n != recs.len() {
+                st.violate("kcgr.rowcount:huge", format!("{} lines ({} bytes) for {} records", n, size, recs.len()), case);
+            } else if let Some(b) = bad {
+                st.violate("kcgr.row:huge", b, case);
+            }
+        }
+    }
+    st
+}
+
+fn prepare_output_none(p: &str) {
+    let _ = std::fs::remove_file(p);
+}
